@@ -58,6 +58,7 @@ func c06Netns(c *Ctx) {
 		op    *rm.Op
 		reply []byte
 		noise [][]byte
+		delay time.Duration // < 0: no reply at all
 	}
 	fm.SetScript(func(ep *farm.Endpoint, src net.Addr, req []byte, seq uint64) []farm.Action {
 		cur.Lock()
@@ -65,7 +66,10 @@ func c06Netns(c *Ctx) {
 		if cur.op == nil || cur.op.NoReply || len(req) != 64 {
 			return nil
 		}
-		out := []farm.Action{}
+		if cur.delay < 0 {
+			return nil
+		}
+		out := []farm.Action{{Delay: cur.delay}}
 		if ep.Proto == "udp" {
 			for _, b := range cur.noise {
 				out = append(out, farm.Action{Data: b})
@@ -76,7 +80,7 @@ func c06Netns(c *Ctx) {
 
 	r := c.Rng("netns")
 	ops := append([]*rm.Op{rm.FindOp("GetDevices")}, reqOps()...)
-	N := c.N(500, 6000)
+	N := c.N(300, 6000)
 	bcasts := []string{"", fmt.Sprintf("255.255.255.255:%d", altPort), nsBcast + ":60000", fmt.Sprintf("%s:%d", nsBcast, altPort)}
 	for i := 0; i < N; i++ {
 		caseNo := int64(i)
@@ -127,21 +131,20 @@ func c06Netns(c *Ctx) {
 			}
 			return n
 		}
+		histBefore := total()
 		hist := c06History(r, u, cfg, serial, [][4]byte{{10, 77, 0, 2}, {10, 77, 0, 3}, {10, 77, 0, 4}, {10, 77, 0, 5}, {127, 0, 0, 1}}, i%40 == 7, func(hop *rm.Op, hs uint32, ha rm.Vals) {
 			cur.Lock()
-			cur.op, cur.noise = hop, nil
+			cur.op, cur.noise, cur.delay = hop, nil, 0
 			cur.reply = validReply(r, hop, hs+map[bool]uint32{true: 77, false: 0}[hop.Discovery], ha)
 			cur.Unlock()
 		})
 		if len(hist) > 0 {
-			for q, last := 0, int64(-1); q < 100; q++ {
+			// every earlier call put exactly one request on the network: wait (bounded) until the farm has logged them all -
+			// a TCP request of a call that does not wait for a reply can be read by the farm well after the call returned
+			for q := 0; q < 500 && total() < histBefore+int64(len(hist)); q++ {
 				time.Sleep(2 * time.Millisecond)
-				if t := total(); t == last {
-					break
-				} else {
-					last = t
-				}
 			}
+			time.Sleep(3 * time.Millisecond)
 			fm.WaitIdle(2 * time.Second)
 			c.Res.Count("netns:cases-with-earlier-calls-on-the-client", 1)
 		}
@@ -153,6 +156,15 @@ func c06Netns(c *Ctx) {
 			cur.reply = validReply(r, op, serial, a)
 		}
 		cur.noise = c06Noise(r, cur.reply)
+		cur.delay = 0
+		replyClass := "prompt"
+		switch x := r.Pick(20); {
+		case x < 1:
+			cur.delay, replyClass = T*65/100, "after-0.65T"
+		case x < 2:
+			cur.delay, replyClass = -1, "never"
+		}
+		c.Res.Count("netns:reply:"+replyClass, 1)
 		nNoise := len(cur.noise)
 		cur.Unlock()
 		if nNoise > 0 {
@@ -218,7 +230,7 @@ func c06Netns(c *Ctx) {
 			}
 		}
 		wv := map[string]any{"layer": "netns", "op": op.Name, "config": fmt.Sprintf("%+v", cfg), "controller": dv.state, "protocol": dv.proto, "bind": cfg.Bind, "broadcast": bc,
-			"expected": fmt.Sprintf("%s %s (destination address %s)", wantProto, wantEP.Addr, wantDst), "arrivals": desc, "err": out.Err, "elapsed_ms": elapsed.Milliseconds(), "earlier_calls_on_this_client": hist, "stray_datagrams_before_reply": nNoise}
+			"expected": fmt.Sprintf("%s %s (destination address %s)", wantProto, wantEP.Addr, wantDst), "arrivals": desc, "err": out.Err, "elapsed_ms": elapsed.Milliseconds(), "earlier_calls_on_this_client": hist, "stray_datagrams_before_reply": nNoise, "reply": replyClass}
 		key := fmt.Sprintf("C06:netns:%s:%s", dv.state, wantProto)
 		if broadcast && bc == "" {
 			key = "C06:default-broadcast-address"
